@@ -11,4 +11,5 @@ INVARIANT NoCrash
 INVARIANT DisconnectCode
 INVARIANT OneDisconnect
 INVARIANT NoStrayFrames
+INVARIANT OneAnswer
 CHECK_DEADLOCK FALSE
